@@ -213,7 +213,7 @@ Example C18_example :
     = [1; 2; 238; 238; 238; 238; 3; 4; 5; 6; 238; 238; 9; 10; 11; 12; 17; 18] /\
   (let E := mk_env 2 3 in
    let s0 := {| copies := [{| cp_dtt := 1; cp_rank := 0; cp_data := zseq 1 18 |}]; futs := []; repo := []; evs := []; err := 0 |} in
-   let '(s1, cur) := setup_local E false s0 (0, 0, 0, 0) (0, 1, 0, 0) O 0 None 2 in
+   let '(s1, cur) := setup_local E false s0 (0, 0, 0, 0, 0) (0, 1, 0, 0, 0) O 0 None 2 in
    let '(s2, c) := get_from_dep E s1 O 3 in
    cur = Some O /\ c = Some 1%nat /\ nconv s2 = 1%nat /\ f_nested (getf s2 O) = [1%nat] /\ f_val (getf s2 1) = Some 1%nat /\
    cp_data (getc s2 1) = [1; 2; 238; 238; 238; 238; 3; 4; 5; 6; 238; 238; 9; 10; 11; 12; 17; 18]).
